@@ -20,7 +20,7 @@
 using namespace vh;
 using tulz::rwp::Resource;
 
-enum Cmd { C_NONE, C_LOCK_R, C_LOCK_W, C_UNLOCK, C_EXIT };
+enum Cmd { C_NONE, C_LOCK_R, C_LOCK_W, C_UNLOCK, C_EXIT, C_MANY_READS };
 enum { TAG_IDLE = 1, TAG_HOLDING = 2 };
 
 struct Worker {
@@ -60,6 +60,16 @@ struct Run {
             vs::point(TAG_IDLE);
             Cmd c = w[t].cmd;
             if (c == C_EXIT) { if (w[t].holdsAux) aux->unlockRead(); return; }
+            if (c == C_MANY_READS) {
+                // one thread holds very many read locks at once (the holder count is a size_t): take them, wait, give one
+                // back, wait, give the rest back
+                for (long i = 0; i < manyCount; ++i) res->lockRead();
+                vs::point(TAG_HOLDING);
+                res->unlockRead();
+                vs::point(TAG_HOLDING);
+                for (long i = 1; i < manyCount; ++i) res->unlockRead();
+                continue;
+            }
             bool write = c == C_LOCK_W;
             if (w[t].guard) { if (write) wl = new tulz::rwp::WriteLock(*res); else rl = new tulz::rwp::ReadLock(*res); }
             else { if (write) res->lockWrite(); else res->lockRead(); }
@@ -246,6 +256,68 @@ struct Run {
     // each acquisition of the internal mutex — is a choice drawn from the seed; only the monitors judge.
     bool freeMode = false;
     long clock = 0;
+    long manyCount = 0;
+
+    // ---- marathon (deterministic; no model): header [3; 3; count]. The counters of the lock (holders, tickets, bounds)
+    // are 64-bit quantities: (A) one thread holds `count` read locks at once while a writer waits; (B) two writers hand the
+    // lock to each other `count` times without the lock ever becoming idle, then a third writer queues
+    void toBoundary(int t) {   // resume t until it is parked, holding, idle or finished
+        for (int k = 0; k < 8; ++k) {
+            auto *v = w[t].vt;
+            if (v->reason == vs::R_CV_BLOCKED && !v->notified) return;
+            if (!vs::enabled(v)) return;
+            if (v->reason == vs::R_POINT && k > 0) return;
+            vs::step(v);
+            if (v->reason == vs::R_POINT || v->reason == vs::R_CV_BLOCKED) return;
+        }
+    }
+    void marathon(long count) {
+        manyCount = count;
+        // (A)
+        w[0].cmd = C_MANY_READS; w[0].wantWrite = false;
+        for (long g = 0; g < 4 * count + 100 && !holding(0); ++g) vs::step(w[0].vt);
+        if (!holding(0)) { complain("C02: taking many read locks on one thread does not complete"); return; }
+        w[1].cmd = C_LOCK_W; w[1].wantWrite = true; w[1].holdsWrite = false;
+        toBoundary(1); if (!parked(1) && !holding(1)) toBoundary(1);
+        if (holding(1)) { complain("C01: the write lock was granted while another thread holds " + std::to_string(count) + " read locks"); return; }
+        // thread 0 gives one read lock back
+        for (int g = 0; g < 6; ++g) { vs::step(w[0].vt); if (w[0].vt->reason == vs::R_POINT) break; }
+        for (int g = 0; g < 4; ++g) if (parked(1) && w[1].vt->notified && vs::enabled(w[1].vt)) toBoundary(1);
+        if (holding(1)) { complain("C01: the write lock was granted while another thread still holds " + std::to_string(count - 1) + " read lock(s)"); return; }
+        // ... and the rest
+        for (long g = 0; g < 4 * count + 100 && !atIdle(0); ++g) vs::step(w[0].vt);
+        for (int g = 0; g < 4 && !holding(1); ++g) toBoundary(1);
+        if (!holding(1)) { complain("C02: the writer is not granted after every read lock was released"); return; }
+        w[1].holdsWrite = true;
+        // (B) thread 1 holds the write lock; thread 0 queues; they alternate
+        int holder = 1, waiter = 0;
+        w[waiter].cmd = C_LOCK_W; w[waiter].wantWrite = true;
+        toBoundary(waiter); if (!parked(waiter)) toBoundary(waiter);
+        for (long i = 0; i < count; ++i) {
+            if (!parked(waiter) || !holding(holder)) {
+                complain(std::string("C01: hand-over ") + std::to_string(i) + ": the queued writer " + (holding(waiter) ? "holds the lock together with the holder" : "is neither parked nor holding"));
+                return;
+            }
+            w[holder].cmd = C_UNLOCK;
+            for (int g = 0; g < 8 && !atIdle(holder); ++g) vs::step(w[holder].vt);       // unlock + notify
+            for (int g = 0; g < 4 && !holding(waiter); ++g) toBoundary(waiter);
+            if (!holding(waiter)) { complain("C02: hand-over " + std::to_string(i) + ": the queued writer was not granted after the holder released"); return; }
+            std::swap(holder, waiter);
+            w[waiter].cmd = C_LOCK_W; w[waiter].wantWrite = true;
+            toBoundary(waiter); if (!parked(waiter) && !holding(waiter)) toBoundary(waiter);
+            if (holding(waiter)) { complain("C01: hand-over " + std::to_string(i) + ": a write request was granted while another writer holds the lock"); return; }
+        }
+        // a third writer queues behind the waiter: grants must follow arrival
+        w[2].cmd = C_LOCK_W; w[2].wantWrite = true;
+        toBoundary(2); if (!parked(2) && !holding(2)) toBoundary(2);
+        if (holding(2)) { complain("C01: after " + std::to_string(count) + " hand-overs a write request was granted while another writer holds the lock"); return; }
+        w[holder].cmd = C_UNLOCK;
+        for (int g = 0; g < 8 && !atIdle(holder); ++g) vs::step(w[holder].vt);
+        for (int g = 0; g < 4; ++g) { if (parked(waiter) && w[waiter].vt->notified) toBoundary(waiter); if (parked(2) && w[2].vt->notified) toBoundary(2); }
+        if (holding(2) && !holding(waiter)) complain("C03: after " + std::to_string(count) + " hand-overs the later write request was granted before the one parked earlier");
+        if (holding(2) && holding(waiter)) complain("C01: two writers hold the lock");
+        w[waiter].holdsWrite = holding(waiter); w[2].holdsWrite = holding(2);
+    }
     void freeGranted(int t) {
         w[t].holdsWrite = w[t].wantWrite;
         // C03 with explicit timestamps: a was observed parked before t's call was issued
@@ -342,6 +414,13 @@ struct Run {
                 if (!vs::enabled(w[t].vt)) { complain("a read lock on an unrelated, otherwise unused Resource blocks"); break; }
                 vs::step(w[t].vt);
             }
+        if (c.lines[0][1] == 3) {
+            if (n < 3) { emit({PRE}); return; }
+            marathon(c.lines[0].size() > 2 ? (long) c.lines[0][2] : 70000);
+            emit({3});
+            finish();
+            return;
+        }
         if (c.lines[0][1] == 2) {
             freeMode = true;
             for (int t = 0; t < n && (size_t) t + 1 < c.lines.size(); ++t) w[t].program = c.lines[t + 1];
@@ -368,5 +447,5 @@ int main() {
         emit({});
         Run *r = new Run(); // leaked on purpose when threads stay blocked (lost wake-up)
         r->run(c);
-    }, 20, 32);
+    }, 150, 32);
 }
